@@ -32,6 +32,7 @@ type item struct {
 	src     string // "@" stands for the per-run name prefix
 	subs    []sub
 	wantErr bool     // the evaluation must signal an (ordinary) error
+	errIsA  string   // ... whose class chain contains this class ("" = any)
 	feats   []string // listed-finding constructs this evaluation exercises
 }
 
@@ -56,7 +57,7 @@ func defclassSrc(c *Case, k int, cl Class, gen int) string {
 		if 0 < i {
 			sb.WriteByte(' ')
 		}
-		plain := len(sd.Initargs) == 0 && sd.Form == "" && !sd.Reader && !sd.Writer && !sd.Accessor
+		plain := len(sd.Initargs) == 0 && sd.Form == "" && !sd.Reader && !sd.Writer && !sd.Accessor && sd.Type == "" && !sd.Shared
 		if plain && i%2 == 0 {
 			sb.WriteString(sd.Name)
 			continue
@@ -77,9 +78,23 @@ func defclassSrc(c *Case, k int, cl Class, gen int) string {
 		if sd.Accessor {
 			sb.WriteString(" :accessor " + accName("a", k, gen, sd.Name))
 		}
+		if sd.Type != "" {
+			sb.WriteString(" :type " + sd.Type)
+		}
+		if sd.Shared {
+			sb.WriteString(" :allocation :class")
+		}
 		sb.WriteByte(')')
 	}
-	sb.WriteString("))")
+	sb.WriteString(")")
+	if 0 < len(cl.Defaults) {
+		sb.WriteString(" (:default-initargs")
+		for _, d := range cl.Defaults {
+			sb.WriteString(" :" + d.Arg + " " + d.Form)
+		}
+		sb.WriteString(")")
+	}
+	sb.WriteString(")")
 	return sb.String()
 }
 
@@ -154,30 +169,58 @@ func argsets(all []string, maxArgs int) [][]string {
 	return out
 }
 
-// buildItems lists everything observed once all classes exist.
-func buildItems(m *model, c *Case, final bool) []item {
-	items := buildItems1(m, c, final)
-	if !final || c.Redef == nil {
-		return items
-	}
-	// construct with a listed finding that concerns the redefinition
-	for k := range items {
-		it := &items[k]
-		if c.Redef.Skew < 0 && (it.kind == "dispatch-again" || it.kind == "foreign-accessor-again") {
-			it.feats = append(it.feats, featCached)
+// :reader/:writer/:accessor options of define-condition slots
+const featCondAcc = "condition-slot-accessor"
+
+// baseOf picks the initargs the instances of class x are made with where the
+// initialisation itself is not the subject: the first subset that exercises no
+// construct with a listed finding (the empty one if there is none).
+func baseOf(m *model, c *Case, x int) (base []string, baseState map[string]string, baseFeats []string) {
+	all := m.initargs(x)
+	for _, as := range argsets(all, c.MaxArgs) {
+		state, feats := m.instance(x, as, c.Universe, all)
+		if baseState == nil || (0 < len(baseFeats) && len(feats) == 0) {
+			base, baseState, baseFeats = as, state, feats
 		}
 	}
-	return items
+	return
 }
 
-const (
-	// a generic function already called on instances of the class before the redefinition
-	featCached = "generic-called-before-redefinition"
-	// :reader/:writer/:accessor options of define-condition slots
-	featCondAcc = "condition-slot-accessor"
-)
+// oldItems covers instances made before a redefinition at the end of the
+// sequence. defs makes one instance per class; judged are the observations
+// slip documents ("existing objects continue to reference the original
+// class": the instance of the redefined class keeps its class name and slots
+// and its class is no longer the one find-class returns) or that cannot be
+// affected (unrelated classes); watched are instances of subclasses of the
+// redefined class, whose fate is not documented: they are only counted.
+func oldItems(m0 *model, c *Case) (defs []string, judged, watched []item) {
+	r := c.Redef.Class
+	for x := range m0.classes {
+		base, state, feats := baseOf(m0, c, x)
+		defs = append(defs, fmt.Sprintf("(defvar @o%d %s)", x, makeSrc(c, x, base, m0.initargs(x))))
+		src := fmt.Sprintf("(append (list (class-name (class-of @o%d)) (eq (class-of @o%d) (find-class '@c%d))) (%s @o%d))", x, x, x, stateFn, x)
+		what := fmt.Sprintf("<c%d> made before the redefinition of c%d:", x, r)
+		same := "t"
+		if x == r {
+			same = "nil"
+		}
+		subs := []sub{{"old-instance", what + " class name", "@c" + strconv.Itoa(x)}, {"old-instance", what + " (eq (class-of i) (find-class 'c" + strconv.Itoa(x) + "))", same}}
+		for _, sb := range stateSubs(c.Universe, state, what) {
+			sb.kind = "old-instance"
+			subs = append(subs, sb)
+		}
+		it := item{kind: "old-instance", class: x, feats: feats, src: src, subs: subs}
+		if x == r || !m0.inherits(x, r) {
+			judged = append(judged, it)
+		} else {
+			watched = append(watched, it)
+		}
+	}
+	return
+}
 
-func buildItems1(m *model, c *Case, final bool) []item {
+// buildItems lists everything observed once all classes exist.
+func buildItems(m *model, c *Case, final bool) []item {
 	var items []item
 	prev := newModel(c, c.Classes)
 	n := len(m.classes)
@@ -192,14 +235,9 @@ func buildItems1(m *model, c *Case, final bool) []item {
 		all := m.initargs(x)
 		sets := argsets(all, c.MaxArgs)
 		// instance initialisation for every subset of the initargs
-		var base []string
-		var baseState map[string]string
-		var baseFeats []string
+		base, baseState, baseFeats := baseOf(m, c, x)
 		for _, as := range sets {
 			state, feats := m.instance(x, as, c.Universe, all)
-			if baseState == nil || (0 < len(baseFeats) && len(feats) == 0) {
-				base, baseState, baseFeats = as, state, feats
-			}
 			ctx := fmt.Sprintf("c%d made with %v:", x, as)
 			items = append(items, item{kind: "init", class: x, feats: feats,
 				src:  "(let ((i " + makeSrc(c, x, as, all) + ")) " + stateSrc(c.Universe) + ")",
@@ -345,6 +383,127 @@ func buildItems1(m *model, c *Case, final bool) []item {
 			items = append(items, item{kind: kind, class: x, feats: accFeats,
 				src: "(let ((i " + mk + ")) " + call + " " + stateSrc(c.Universe) + ")", subs: subs})
 		}
+		// a reader applied to an instance whose slot was made unbound signals unbound-slot
+		for _, a := range readers {
+			if baseState[a.slot] == missing {
+				continue
+			}
+			items = append(items, item{kind: "reader-unbound", class: x, wantErr: true, feats: append(append([]string{}, accFeats...), featReaderUnbound),
+				src:  fmt.Sprintf("(let ((i %s)) (slot-makunbound i '%s) (%s i))", mk, a.slot, a.name),
+				subs: []sub{{kind: "reader-unbound", what: fmt.Sprintf("reader of c%d.%s on <c%d> after slot-makunbound", a.class, a.slot, x)}}})
+			break
+		}
+		// :type validates initial values: a string for a slot typed as a number is rejected
+		for _, es := range m.slots(x) {
+			if es.typ == "" || len(es.initargs) == 0 {
+				continue
+			}
+			as := []string{es.initargs[0]}
+			_, feats := m.instance(x, as, c.Universe, all)
+			var sb strings.Builder
+			sb.WriteString(strings.TrimSuffix(makeSrc(c, x, nil, all), ")"))
+			sb.WriteString(" :" + es.initargs[0] + " \"bad\")")
+			items = append(items, item{kind: "type-check", class: x, wantErr: true, errIsA: "type-error", feats: feats, src: sb.String(),
+				subs: []sub{{kind: "type-check", what: fmt.Sprintf("c%d made with a string for slot %s of :type %s", x, es.name, es.typ)}}})
+		}
+		// the class-allocated slot k0
+		if owner, hasForm, exists := m.sharedSlot(x); exists {
+			var ownFeats []string
+			if owner != x {
+				ownFeats = append(ownFeats, featSharedInherited)
+			}
+			shared := func(kind, what, src string, feats []string, want ...string) {
+				subs := make([]sub, len(want))
+				for k, w := range want {
+					subs[k] = sub{kind: kind, what: what, want: w}
+				}
+				items = append(items, item{kind: kind, class: x, feats: append(append([]string{}, baseFeats...), feats...), src: src, subs: subs})
+			}
+			v1, v2 := strconv.Itoa(5100+x), strconv.Itoa(5200+x)
+			shared("class-slot-shared", fmt.Sprintf("k0 written through one <c%d>, read through another", x),
+				fmt.Sprintf("(let ((a %s) (b %s)) (setf (slot-value a 'k0) %s) (list (slot-value b 'k0) (slot-value a 'k0)))", mk, mk, v1), ownFeats, v1, v1)
+			resetFeats := ownFeats
+			if hasForm {
+				resetFeats = append(append([]string{}, ownFeats...), featSharedReset)
+			}
+			shared("class-slot-kept", fmt.Sprintf("k0 of <c%d> after another instance is made", x),
+				fmt.Sprintf("(let ((a %s)) (setf (slot-value a 'k0) %s) %s (list (slot-value a 'k0)))", mk, v2, mk), resetFeats, v2)
+			for y := 0; y < n; y++ {
+				oy, _, ey := m.sharedSlot(y)
+				if y == x || !ey {
+					continue
+				}
+				_, yFeats0 := m.instance(y, nil, c.Universe, m.initargs(y))
+				feats := append([]string{}, yFeats0...)
+				if owner != x || oy != y {
+					feats = append(feats, featSharedInherited)
+				}
+				mky := makeSrc(c, y, nil, m.initargs(y))
+				if oy == owner {
+					shared("class-slot-shared", fmt.Sprintf("k0 written through <c%d>, read through <c%d> (same owner c%d)", x, y, owner),
+						fmt.Sprintf("(let ((a %s) (b %s)) (setf (slot-value b 'k0) %s) (setf (slot-value a 'k0) %s) (list (slot-value b 'k0) (slot-value a 'k0)))", mk, mky, v2, v1), feats, v1, v1)
+				} else {
+					shared("class-slot-separate", fmt.Sprintf("k0 written through <c%d> (owner c%d), read through <c%d> (owner c%d)", x, owner, y, oy),
+						fmt.Sprintf("(let ((a %s) (b %s)) (setf (slot-value b 'k0) %s) (setf (slot-value a 'k0) %s) (list (slot-value b 'k0) (slot-value a 'k0)))", mk, mky, v2, v1), feats, v2, v1)
+				}
+			}
+		}
+		// change-class (standard classes only)
+		if c.Cond == "" {
+			for d := 1; d <= 2 && d < n; d++ {
+				y := (x + d) % n
+				state, feats := m.changed(x, y, baseState, c.Universe)
+				var sb strings.Builder
+				fmt.Fprintf(&sb, "(let ((i %s)) (change-class i '@c%d) (append (list (class-name (class-of i)) (typep i '@c%d) (typep i '@c%d)) %s))", mk, y, y, x, stateSrc(c.Universe))
+				what := fmt.Sprintf("<c%d> after (change-class i 'c%d):", x, y)
+				subs := []sub{{"change-class", what + " class name", "@c" + strconv.Itoa(y)}, {"change-class", what + " typep new class", "t"},
+					{"change-class", what + " typep old class", tf(m.inherits(y, x))}}
+				for _, sb2 := range stateSubs(c.Universe, state, what) {
+					sb2.kind = "change-class"
+					subs = append(subs, sb2)
+				}
+				items = append(items, item{kind: "change-class", class: x, feats: append(append([]string{}, baseFeats...), feats...), src: sb.String(), subs: subs})
+			}
+		}
+		// two-argument probe generic: specificity is decided by the precedence
+		// list of the first argument, then by that of the second
+		if 0 < len(c.Meth2) {
+			var sb strings.Builder
+			var subs []sub
+			sb.WriteString("(let ((i " + mk + ")) (list")
+			rejected := false
+			for y := 0; y < n; y++ {
+				py := m.prec(y)
+				want := ""
+			search:
+				for _, k1 := range prec {
+					for _, k2 := range py {
+						for _, pr := range c.Meth2 {
+							if pr[0] == k1 && pr[1] == k2 {
+								want = fmt.Sprintf("p%d-%d", k1, k2)
+								break search
+							}
+						}
+					}
+				}
+				mky := makeSrc(c, y, nil, m.initargs(y))
+				if want == "" {
+					if !rejected {
+						rejected = true
+						items = append(items, item{kind: "dispatch2", class: x, wantErr: true, feats: baseFeats,
+							src:  fmt.Sprintf("(@g2 %s %s)", mk, mky),
+							subs: []sub{{kind: "dispatch2", what: fmt.Sprintf("(g2 <c%d> <c%d>) with no applicable method", x, y)}}})
+					}
+					continue
+				}
+				fmt.Fprintf(&sb, " (@g2 i %s)", mky)
+				subs = append(subs, sub{kind: "dispatch2", what: fmt.Sprintf("(g2 <c%d> <c%d>)", x, y), want: want})
+			}
+			sb.WriteString("))")
+			if 0 < len(subs) {
+				items = append(items, item{kind: "dispatch2", class: x, feats: baseFeats, src: sb.String(), subs: subs})
+			}
+		}
 		// accessors of classes that are not on the precedence list are not applicable
 		if final && c.Redef != nil {
 			sort.SliceStable(foreign, func(a, b int) bool {
@@ -418,7 +577,8 @@ func (rn *run) fail(sig, perm string, format string, a ...any) {
 func sigOf(obs, fail, when string, feats []string) string {
 	// constructs exercised by the evaluation itself first, then those that
 	// concern the whole class
-	for _, f := range []string{"shared-initarg", "two-initargs-one-slot", featCondAcc, featCached} {
+	for _, f := range []string{"shared-initarg", "two-initargs-one-slot", featCondAcc, featInheritedDefault,
+		featSharedInherited, featSharedReset, featReaderUnbound, featChangeInherited, featChangeInitform} {
 		for _, have := range feats {
 			if have == f {
 				return "construct=" + f
@@ -463,6 +623,8 @@ func (rn *run) observe(scope *slip.Scope, prefix, perm string, items []item, whe
 				rn.fail(sigOf(it.kind, "no-error", when, it.feats), perm, "%s: must signal an error, returned %s; evaluated %s", it.subs[0].what, got, shown)
 			case err.Internal:
 				rn.fail(sigOf(it.kind, "internal-fault", when, it.feats), perm, "%s: %s; evaluated %s", it.subs[0].what, err, shown)
+			case it.errIsA != "" && !err.IsA(it.errIsA):
+				rn.fail(sigOf(it.kind, "wrong-error", when, it.feats), perm, "%s: must signal a %s, signalled %s; evaluated %s", it.subs[0].what, it.errIsA, err, shown)
 			default:
 				rn.x.Cover("held:" + it.kind + "-rejected")
 			}
@@ -548,13 +710,20 @@ func exec(x *fw.Ctx, c Case) {
 	if c.Redef != nil {
 		items1 = buildItems(m1, &c, true)
 	}
+	var oldDefs []string
+	var oldWatched []item
+	if c.Redef != nil && c.Redef.Skew < 0 {
+		var judged []item
+		oldDefs, judged, oldWatched = oldItems(m0, &c)
+		items1 = append(items1, judged...)
+	}
 	uid++
 	stName := fmt.Sprintf("slot-states-%d", uid)
 	if _, err := sl.Eval(slip.NewScope(), strings.ReplaceAll(stateDefun(c.Universe), stateFn, stName)); err != nil {
 		x.Fail("harness-defun", "%s", err)
 		return
 	}
-	for _, its := range [][]item{items0, items1} {
+	for _, its := range [][]item{items0, items1, oldWatched} {
 		for k := range its {
 			its[k].src = strings.ReplaceAll(its[k].src, stateFn, stName)
 		}
@@ -709,6 +878,18 @@ func exec(x *fw.Ctx, c Case) {
 				}
 			}
 		}
+		if 0 < len(c.Meth2) {
+			if _, err := rn.eval(scope, prefix, "(defgeneric @g2 (a b))"); err != nil {
+				rn.fail(sigOf("defgeneric", errKind(err), "define", nil), ps, "%s", err)
+				broken = true
+			}
+			for _, pr := range c.Meth2 {
+				if _, err := rn.eval(scope, prefix, fmt.Sprintf("(defmethod @g2 ((a @c%d) (b @c%d)) 'p%d-%d)", pr[0], pr[1], pr[0], pr[1])); err != nil {
+					rn.fail(sigOf("defmethod", errKind(err), "define", nil), ps, "%s", err)
+					broken = true
+				}
+			}
+		}
 		if broken {
 			continue
 		}
@@ -727,8 +908,34 @@ func exec(x *fw.Ctx, c Case) {
 			rn.observe(scope, prefix, ps, items0, whenDef, "p0", nil)
 		case c.Redef.Skew < 0:
 			rn.observe(scope, prefix, ps, items0, whenDef, "p0", nil)
+			for _, d := range oldDefs {
+				if _, err := rn.eval(scope, prefix, d); err != nil {
+					rn.fail(sigOf("old-instance", errKind(err), "define", nil), ps, "%s => %s", strings.ReplaceAll(d, "@", ""), err)
+				}
+			}
 			if !define(c.Redef.Class, c.Redef.Def, 1) {
 				continue
+			}
+			for _, it := range oldWatched {
+				// not documented: counted only
+				res, err := rn.eval(scope, prefix, it.src)
+				switch {
+				case err != nil:
+					x.Cover("old-subclass-instance:error")
+				default:
+					list, _ := res.(slip.List)
+					keeps := len(list) == len(it.subs)
+					for k := 0; keeps && k < len(list); k++ {
+						if strings.ReplaceAll(sl.Show(list[k]), prefix, "@") != it.subs[k].want {
+							keeps = false
+						}
+					}
+					if keeps {
+						x.Cover("old-subclass-instance:unchanged")
+					} else {
+						x.Cover("old-subclass-instance:changed")
+					}
+				}
 			}
 			rn.observe(scope, prefix, ps, items1, func(k int) string {
 				if m0.inherits(k, c.Redef.Class) || m1.inherits(k, c.Redef.Class) {
@@ -792,14 +999,15 @@ func init() {
 	fw.Register(fw.Spec[Case]{
 		ID: "C12",
 		Rule: "case = a class DAG of 2..5 classes (random supers in written order, 2..4 slot names shared by all classes so that slots shadow over several levels, " +
-			"initargs, constant initforms, readers/writers/accessors; ~15% as condition classes through define-condition/make-condition), optionally one redefinition " +
-			"(after all classes or mid-sequence, possibly naming a not yet defined super) and two probe generics specialised on a subset of the classes; " +
+			"initargs, initforms, readers/writers/accessors; some cases with a :type on one slot name, :default-initargs, a class-allocated slot k0; ~15% as condition classes), optionally one redefinition " +
+			"(after all classes or mid-sequence, possibly naming a not yet defined super), one-argument probe generics specialised on a subset of the classes and a two-argument one specialised on class pairs; " +
 			"every case is run once per definition order (all n! orders; quick samples 30 of the 120 for half of the 5-class DAGs) under fresh class names, " +
 			"and after each order every class is observed: class-precedence (also after every intermediate defclass), a fresh instance for every subset of its initargs " +
-			"(slot-exists-p/slot-boundp/slot-value of every slot name), (setf slot-value), slot-makunbound, typep/class-of/subtypep against every class, dispatch, " +
-			"every applicable reader/writer/accessor, non-applicable accessors. The first 18 cases are a fixed seed-independent list of shapes (chains, diamond, redefinition of root/middle/apex, " +
-			"every construct with a listed finding). distinct = distinct case JSON; every case is non-trivial (>= 2 classes, >= 2 orders, >= 100 evaluations). " +
-			"Avoided in ~85% of the cases (dirty stream keeps them): initarg shared by two slots, a slot with two initargs (both supplied together), condition classes with accessors.",
+			"(slot-exists-p/slot-boundp/slot-value of every slot name; default initargs applied), (setf slot-value), slot-makunbound, reader after slot-makunbound, wrong-typed initarg, class-slot sharing/separation/persistence, " +
+			"change-class to two other classes, typep/class-of/subtypep against every class, one- and two-argument dispatch, every applicable reader/writer/accessor, non-applicable accessors, and instances made before a redefinition. " +
+			"The first 22 cases are a fixed seed-independent list of shapes (chains, diamond, redefinition of root/middle/apex, every construct with a listed finding). " +
+			"distinct = distinct case JSON; every case is non-trivial (>= 2 classes, >= 2 orders, >= 100 evaluations). " +
+			"Kept to a minority of cases (dirty stream): initarg shared by two slots, a slot with two initargs, condition classes with accessors, inherited default initargs, class-allocated slots.",
 		N:        nCases,
 		Gen:      gen,
 		Exec:     exec,
